@@ -35,6 +35,11 @@ def jdefault(o: Any) -> Any:
     return repr(o)
 
 
+class _Enc(json.JSONEncoder):
+    def default(self, o: Any) -> Any:
+        return jdefault(o)
+
+
 def jdumps(o: Any, **kw: Any) -> str:
     return json.dumps(o, default=jdefault, sort_keys=True, **kw)
 
